@@ -2,6 +2,8 @@ package main
 
 import (
 	"bufio"
+	"crypto/sha256"
+	"encoding/hex"
 	"encoding/json"
 	"fmt"
 	"io"
@@ -81,6 +83,8 @@ func workerTranspile(path string, t Target, keep bool) (res wTarget) {
 	tr := transpiler.New()
 	s, err := tr.Transpile(path, newConverter(t))
 	res.Len = len(s)
+	h := sha256.Sum256([]byte(s))
+	res.Sha = hex.EncodeToString(h[:])
 	if keep {
 		res.Script = s
 	}
